@@ -34,13 +34,13 @@ from nauyaca.server.protocol import GeminiServerProtocol  # noqa: E402
 
 OWN = {"C06": {"PrefixAlways", "CompleteAtClose", "ByteExact"},
        "C01": {"ClosedAfterCloseNotify", "CompleteAtClose"},
-       "C07": {"PlainInOrder", "PlainComplete", "SegIndepTls"},
+       "C07": {"PlainInOrder", "PlainComplete", "SegIndepTls", "RequestAnswered"},
        "C08": {"PlainInOrder", "PlainComplete"},      # a valid request line reaches the inner protocol intact through the TLS layer
        # (PlainComplete: a request the TLS layer has received completely is handed on, so that no timeout fires on it)
        "C15": {"HsTimerWhileHandshaking", "HsTimeoutCloses", "ClosedAfterCloseNotify", "PlainComplete"},
        "C20": {"InnerOnlyAfterHandshake", "NoPlainBeforeTls", "OnlyTlsOnWire"}}
 DEVS = {"C01": {},
-        "C06": {"DevSingleSendCall": ["CompleteAtClose"]}, "C07": {"DevReadOnceAfterHandshake": ["PlainComplete"]},
+        "C06": {"DevSingleSendCall": ["CompleteAtClose"]}, "C07": {"DevReadOnceAfterHandshake": ["PlainComplete"], "DevCloseBeforeDeliver": ["RequestAnswered"]},
         "C08": {"DevReadOnceAfterHandshake": ["PlainComplete"]},
         "C15": {"DevNoHsTimer": ["HsTimerWhileHandshaking"]}, "C20": {"DevPlainTimeoutReply": ["OnlyTlsOnWire"]}}
 HS_TIMEOUT = 10.0
@@ -253,6 +253,8 @@ def judge(obs_seq, acts, items, reply, h):
             bad.add("PlainInOrder")
         if o["innerUp"] and o["tcp"] == "open" and o["plainIn"] != app_fed and not junk:
             bad.add("PlainComplete")
+        if o["innerUp"] and n_hs >= 2 and not junk and app_fed >= reply["after"] and o["clientGot"] != total:
+            bad.add("RequestAnswered")
         if not o["innerUp"] and o["tcp"] == "open" and not o["hsTimer"]:
             bad.add("HsTimerWhileHandshaking")
         if k > 0 and acts[k - 1][0] == "HsTimerFire" and not obs_seq[k - 1]["innerUp"] and o["tcp"] == "open":
